@@ -206,7 +206,7 @@ fn dists_of_state(s: &mut MState) -> Vec<&mut Dist> {
     v
 }
 
-fn mutate(r: &mut SplitMix64, m: &mut MMachine) {
+pub fn mutate(r: &mut SplitMix64, m: &mut MMachine) {
     let n = m.states.len();
     match r.below(12) {
         0 => {
